@@ -2217,10 +2217,10 @@ def c14_build(ctx):
             exp = method in ("AES-128", "SAMPLE-AES") and uri == '"k"' and iv in (None, ivs[1], ivs[2]) and kv in (None, vers[1], vers[2], vers[3])
         pfx = "#EXT-X-KEY:" if tagname == "ExtXKey" else "#EXT-X-SESSION-KEY:"
         cases.append(mk("tag:" + tagname, pfx + ",".join(attrs), group="KEY-text", meta={"exp": exp}))
-    for method, uri in itertools.product([None, "aes"], [None, "6b", ""]):
+    for method, uri in itertools.product([None, "aes", "saes"], [None, "6b", "", "20", "2009", "206b20"]):
         toks = (["method=" + method] if method else []) + (["uri=" + uri] if uri is not None else [])
-        exp = method is not None and uri == "6b"
-        cases.append(mk("build_tag:DecryptionKey", " ".join(toks), group="KEY-builder", meta={"exp": exp, "empty_uri": uri == "" and method is not None}))
+        exp = method is not None and uri in ("6b", "206b20")          # a blank URI is no URI, for the builder as for the parser
+        cases.append(mk("build_tag:DecryptionKey", " ".join(toks), group="KEY-builder", meta={"exp": exp}))
     # stream tags
     for bw, uri, hd, res, fr in itertools.product([None, "1", "-1", "x"], [0, 1], [None, "TYPE-0", "NONE", "TYPE-1"], [None, "1x2", "1x", "x"], [None, "25", "-1", "nan"]):
         attrs = (["BANDWIDTH=" + bw] if bw else []) + (["HDCP-LEVEL=" + hd] if hd else []) + (["RESOLUTION=" + res] if res else [])
@@ -2278,7 +2278,7 @@ def c14_oracle(ctx, cases, impl, model):
         if exp != (st == "ok"):
             fails.append(dict(describe(c.line, a), what="%s: attribute rules say %s, implementation %s" % (c.group, "accept" if exp else "reject", st), law="rules",
                               builder_without_validation=c.group == "DATERANGE-builder" and not exp and st == "ok" and c.meta.get("id", False),
-                              key_builder_empty_uri=c.group == "KEY-builder" and c.meta.get("empty_uri", False) and st == "ok"))
+                              ))
     return fails
 
 
@@ -2287,9 +2287,6 @@ def _k6a(f):
     return f.get("builder_without_validation") is True
 
 
-@classifier("K6b-key-builder-empty-uri")
-def _k6b(f):
-    return f.get("key_builder_empty_uri") is True
 
 
 PROPS["C14"] = {
